@@ -20,7 +20,9 @@ func nontrivialLedger(c *sim.Ctx) bool {
 
 func TestWorker(t *testing.T) {
 	led := sim.Engine{Run: runLedger, Nontrivial: nontrivialLedger}
+	crash := sim.Engine{Run: runCrash, Nontrivial: func(c *sim.Ctx) bool { return c.Counters["crash.states"] >= 4 }}
 	sim.WorkerMain(t, map[string]sim.Engine{
+		"C08": crash,
 		"C01": led, "C02": led, "C03": led, "C04": led, "C05": led, "C06": led, "C07": led,
 	})
 }
